@@ -2,7 +2,11 @@
 import OllamaVerif.Model.Sched
 namespace OllamaVerif.Generated.C01
 open OllamaVerif.Sched
-/-- extractor output: deletes=1 guardedDeletes=1; guardDelete=true; recheckGrant=true; deletesElsewhere=0 -/
+/-- extractor output: deletes=1 guardedDeletes=1; guardDelete=true; recheckGrant=true; deletesElsewhere=0; expiredCaseFound=true; expiredAtomic=true; unloadUnderLoadedMu=true -/
 def treeVariant : Variant := ⟨true, true⟩
 def deletesElsewhere : Nat := 0
+/-- the expired handler tests refCount and unloads in ONE critical section of refMu (no check-then-act window) -/
+def expiredAtomic : Bool := true
+/-- unload() and the delete from `loaded` happen while loadedMu is held (the model's atomic `cExp` region) -/
+def unloadUnderLoadedMu : Bool := true
 end OllamaVerif.Generated.C01
